@@ -71,9 +71,14 @@ def cases(draw, tier="quick"):
     kind = draw(st.sampled_from(["gen", "gen", "gen", "hand", "lib", "lib"]))
     if kind == "lib":
         src = H.lib_sources(draw, unc)
+        if draw(st.integers(0, 3)) == 0:
+            src["noise"] = True
     else:
         base = draw(gen_model.model_specs(PROFILE)) if kind == "gen" else H.HAND
         spec, unc = H.assign_sigmas(draw, base, unc)
+        refs = [p["name"] for p in spec["pars"] if not p.get("timed") and not (p.get("fn") or "").startswith(("SRC_POP", "TGT_POP")) and ":" not in (p.get("fn") or "")]
+        if refs and draw(st.integers(0, 3)) == 0:
+            H.add_noise_parameter(spec, draw(st.sampled_from(refs)))  # stochastic framework: one multiplicative noise term
         if kind == "hand" and draw(st.booleans()) and unc in ("none", "zero", "par"):
             spec["progs"], spec["instr"] = None, None
             for p in spec["pars"]:
@@ -159,6 +164,21 @@ def static_cases(tier):
 
     out.append(mk({"kind": "spec", "spec": _hand(edge_sigma)}, "edge", 4, "project", 2, 20))
 
+    def noisy(spec):
+        par_sigma(spec)
+        H.add_noise_parameter(spec, "k1")
+
+    out.append(mk({"kind": "spec", "spec": _hand(noisy)}, "par", 6, "project", 2, 21))
+
+    def sat_near_bound(spec):
+        spec["progs"]["progs"][1]["sat"] = {"t": [2000.0], "v": [0.95], "s": 0.1}
+        spec["progs"]["progs"][0]["sat"] = {"t": [2000.0], "v": [0.05], "s": 0.1}
+        spec["c17_edge"] = ["near-bound"]
+        for c in spec["progs"]["covouts"]:
+            c["sigma"] = None
+
+    out.append(mk({"kind": "spec", "spec": _hand(sat_near_bound)}, "edge", 4, "serial-only", None, 22))
+
     def init_sigma(spec):
         spec["data"]["q"]["c1"]["pa"]["s"] = 50.0 / 0.5244  # 30% of the draws give a negative initial c1
         for c in spec["progs"]["covouts"]:
@@ -180,7 +200,12 @@ def static_cases(tier):
 
 
 def fingerprint(res):
-    """result arrays (compartments, characteristics, parameters, links) + the program inputs the run kept (Model.progset is the sampled set)"""
+    """result arrays (compartments, characteristics, parameters, links) + the program inputs the run kept (Model.progset is the sampled set).
+    For a stochastic framework (a parameter function calls rand()/randn()) the outputs differ from run to run anyway, so the
+    fingerprint is that of the sampled INPUTS as far as the Result retains them: the stored values of every data parameter that no
+    function and no program touches + the program inputs"""
+    if H.is_stochastic(res.model.framework):
+        return "inputs:" + H.data_parameter_digest(res) + "/" + H.progset_inputs_digest(res.model.progset)
     return canon.result_digest(res) + "/" + H.progset_inputs_digest(res.model.progset)
 
 
@@ -284,6 +309,9 @@ def check(case):
         labels.append("explicit-interaction" + ("+sigma" if m["explicit_sigma"] else ""))
     if m["init"]:
         labels.append("init-uncertainty")
+    stochastic = H.is_stochastic(P.framework)
+    if stochastic:
+        labels.append("stochastic-framework")
     what = "uncertainty=%s n=%d" % (labels[2], n)
 
     if case.get("saved_init"):
@@ -337,12 +365,12 @@ def check(case):
         return sps, spg
 
     # 1a. per quantity: the sampled VALUE of every input with sigma > 0 differs from the entered value and between samples (two
-    #     consecutive samples after one seeding + one sample after another seeding); inputs with sigma 0/None keep their value
+    #     x four consecutive samples, each four after one seeding); inputs with sigma 0/None keep their value
     src_q = H.quantity_values(ps, pg, set(P.framework.pars.index))
     np.random.seed(case["probe_seeds"][0])
-    trio = [H.quantity_values(*direct()), H.quantity_values(*direct())]
+    trio = [H.quantity_values(*direct()) for _ in range(4)]
     np.random.seed(case["probe_seeds"][1])
-    trio.append(H.quantity_values(*direct()))
+    trio += [H.quantity_values(*direct()) for _ in range(4)]
     for key in sorted(src_q, key=repr):
         kind, sigma, val, vclass = src_q[key]
         got = [q[key][2] if key in q else "<missing>" for q in trio]
@@ -379,7 +407,7 @@ def check(case):
         # draws cannot collapse onto one result through limits, inactive programs, functions ...), confirmed by the three probes
         # (probes rejected for bad initial conditions do not count; at least two must have been accepted)
         got = [f for f in probes if f is not None]
-        one_to_one = m["eff_par"] or m["gpos"]
+        one_to_one = (m["eff_par_strict"] if stochastic else m["eff_par"]) or m["gpos"]  # (stochastic framework: initial stocks are not in the fingerprint)
         sensitive = one_to_one and len(got) >= 2 and len(set(got + [fp_base])) == len(got) + 1
         labels.append("distinctness-checked" if sensitive else ("no-one-to-one-path" if not one_to_one else "probes-not-distinct"))
     if m["init"]:
